@@ -195,6 +195,91 @@ fn gen_coords(rng: &mut Rng, ext: f32) -> [[f32; 2]; 3] {
     [[c(rng), c(rng)], [c(rng), c(rng)], [c(rng), c(rng)]]
 }
 
+/// One Angle::wrap case: the result lies inside the interval and differs from
+/// the input by a whole number of interval lengths (shared by C20's
+/// consumer stream and the per-backend C18 run).
+#[cfg(any(feature = "std", feature = "libm", feature = "mm"))]
+fn wrap_case(rng: &mut Rng, rep: &mut Report) {
+        use re::math::angle::rads;
+        let (min, max) = if rng.chance(1, 4) {
+            // the intervals people write: [0, 2π), [−π, π), [0, π), [0, 360°)
+            let (p, t) = (std::f32::consts::PI, std::f32::consts::TAU);
+            rng.pick(&[(0.0f32, t), (-p, p), (0.0, p), (0.0, 1.0), (-1.0, 1.0), (1.0, 3.0)])
+        } else {
+            let min = rng.f32_in(-10.0, 10.0);
+            (min, min + rng.log_f32(0.1, 20.0))
+        };
+        let len32 = max - min;
+        let x = match rng.below(12) {
+            // the ends and whole interval lengths away from them: the exact
+            // remainder is ±0 there
+            0 => min,
+            1 => max,
+            2 => min - rng.int(1, 1000) as f32 * len32,
+            3 => min + rng.int(1, 1000) as f32 * len32,
+            4 => rng.ulp_nudge(min),
+            // many revolutions: a remainder formed as x − m·floor(x/m) rounds
+            // twice and leaves the interval there
+            5 | 6 => {
+                let m = rng.log_f32(1e3, 1e7);
+                if rng.bool() { m } else { -m }
+            }
+            // magnitudes whose f32 spacing exceeds the interval: only "inside
+            // the interval" can be judged
+            7 => {
+                let m = rng.log_f32(1e7, 1e30);
+                if rng.bool() { m } else { -m }
+            }
+            _ => rng.f32_in(-1000.0, 1000.0),
+        };
+        rep.count(if x.abs() >= 1e7 { "wrap_inputs.beyond_1e7_rad(range only)" } else if x.abs() >= 1e3 { "wrap_inputs.1e3_to_1e7_rad" } else { "wrap_inputs.within_1e3_rad" });
+        let mut hs = Hasher::new();
+        hs.f32(x).f32(min).f32(max);
+        rep.case(hs.get(), true);
+        match catch(|| rads(x).wrap(rads(min), rads(max)).to_rads()) {
+            Err(e) => rep.violation(&format!("fp.{BACKEND}.wrap_panicked"), format!("[{BACKEND}] wrap panicked: {e}"), Json::obj().set("x", f32s(x))),
+            Ok(w) => {
+                let len = (max - min) as f64;
+                let k = ((x as f64 - w as f64) / len).round();
+                let resid = (x as f64 - w as f64 - k * len).abs();
+                let tol = 8.0 * 1.1920929e-7 * ((x as f64).abs() + (min as f64).abs() + len);
+                // congruence is decidable only while the input's own spacing is
+                // well below the interval
+                let resid_ok = resid <= tol || tol > 0.25 * len;
+                if !(w >= min && w <= max) || !resid_ok {
+                    rep.violation(&format!("fp.{BACKEND}.angle_wrap_differs"), format!("[{BACKEND}] rads({x}).wrap({min},{max}) = {w}"), Json::obj().set("x", f32s(x)).set("min", f32s(min)).set("max", f32s(max)));
+                    return;
+                }
+                // "behaves the same as in std builds": away from the seam
+                // that is the congruence just checked (both are then within
+                // the tolerance of the one exact value). At the seam — x a
+                // whole number of interval lengths from min in exact
+                // arithmetic, with the difference and the length themselves
+                // representable, so that no rounding is involved — a std
+                // build returns min, never max ("closed at the upper end
+                // only by rounding").
+                let d64 = x as f64 - min as f64;
+                let no_rounding = (d64 as f32) as f64 == d64 && (max as f64 - min as f64) == len;
+                if no_rounding && d64.rem_euclid(len) == 0.0 {
+                    let slack = if BACKEND == "mm" { 3e-3 * len32.abs() + 16.0 * 1.1920929e-7 * (min.abs() + len32.abs()) } else { 0.0 };
+                    if (w - min).abs() > slack {
+                        rep.violation(
+                            &format!("fp.{BACKEND}.angle_wrap_differs_from_std"),
+                            format!("[{BACKEND}] rads({x:?}).wrap({min:?}, {max:?}) = {w:?}; x is exactly a whole number of interval lengths from min, a std build gives {min:?}"),
+                            Json::obj().set("x", f32s(x)).set("min", f32s(min)).set("max", f32s(max)),
+                        );
+                        return;
+                    }
+                    rep.count("wrap_checks.seam_without_rounding(must equal min)");
+                }
+                if x == min || x == max || (x - min) % len32 == 0.0 {
+                    rep.count("wrap_checks.exact_multiple_or_end");
+                }
+                rep.count("wrap_checks");
+            }
+        }
+    }
+
 fn run(cfg: &Cfg, rep: &mut Report) {
     let b = backend();
     rep.rule = format!("backend '{BACKEND}': floor and abs on f32 bit patterns with |x| < 2^31 (quick: 2^28 stratified patterns; thorough: all 2^32), compared exactly with std; rem_euclid(x, m), m > 0, on random and exact-multiple pairs; every approximate function the backend's adapter exports on dense sweeps + random inputs against f64, judged against the fixed per-backend bound table; consequences: tri_fill coverage, sampler addressing, Angle::wrap, normalize; non-trivial = all; distinct by hash of the input bits");
@@ -849,70 +934,7 @@ fn run(cfg: &Cfg, rep: &mut Report) {
     #[cfg(any(feature = "std", feature = "libm", feature = "mm"))]
     rep.floor("public_api_checks", 100_000);
     #[cfg(any(feature = "std", feature = "libm", feature = "mm"))]
-    rep.run_stream(cfg, 6, "angle_wrap", cfg.n(400_000, 20_000_000), |rng, _, rep| {
-        use re::math::angle::rads;
-        let (min, max) = if rng.chance(1, 4) {
-            // the intervals people write: [0, 2π), [−π, π), [0, π), [0, 360°)
-            let (p, t) = (std::f32::consts::PI, std::f32::consts::TAU);
-            rng.pick(&[(0.0f32, t), (-p, p), (0.0, p), (0.0, 1.0), (-1.0, 1.0), (1.0, 3.0)])
-        } else {
-            let min = rng.f32_in(-10.0, 10.0);
-            (min, min + rng.log_f32(0.1, 20.0))
-        };
-        let len32 = max - min;
-        let x = match rng.below(8) {
-            // the ends and whole interval lengths away from them: the exact
-            // remainder is ±0 there
-            0 => min,
-            1 => max,
-            2 => min - rng.int(1, 1000) as f32 * len32,
-            3 => min + rng.int(1, 1000) as f32 * len32,
-            4 => rng.ulp_nudge(min),
-            _ => rng.f32_in(-1000.0, 1000.0),
-        };
-        let mut hs = Hasher::new();
-        hs.f32(x).f32(min).f32(max);
-        rep.case(hs.get(), true);
-        match catch(|| rads(x).wrap(rads(min), rads(max)).to_rads()) {
-            Err(e) => rep.violation(&format!("fp.{BACKEND}.wrap_panicked"), format!("[{BACKEND}] wrap panicked: {e}"), Json::obj().set("x", f32s(x))),
-            Ok(w) => {
-                let len = (max - min) as f64;
-                let k = ((x as f64 - w as f64) / len).round();
-                let resid = (x as f64 - w as f64 - k * len).abs();
-                let tol = 8.0 * 1.1920929e-7 * ((x as f64).abs() + (min as f64).abs() + len);
-                if !(w >= min && w <= max) || !(resid <= tol) {
-                    rep.violation(&format!("fp.{BACKEND}.angle_wrap_differs"), format!("[{BACKEND}] rads({x}).wrap({min},{max}) = {w}"), Json::obj().set("x", f32s(x)).set("min", f32s(min)).set("max", f32s(max)));
-                    return;
-                }
-                // "behaves the same as in std builds": away from the seam
-                // that is the congruence just checked (both are then within
-                // the tolerance of the one exact value). At the seam — x a
-                // whole number of interval lengths from min in exact
-                // arithmetic, with the difference and the length themselves
-                // representable, so that no rounding is involved — a std
-                // build returns min, never max ("closed at the upper end
-                // only by rounding").
-                let d64 = x as f64 - min as f64;
-                let no_rounding = (d64 as f32) as f64 == d64 && (max as f64 - min as f64) == len;
-                if no_rounding && d64.rem_euclid(len) == 0.0 {
-                    let slack = if BACKEND == "mm" { 3e-3 * len32.abs() + 16.0 * 1.1920929e-7 * (min.abs() + len32.abs()) } else { 0.0 };
-                    if (w - min).abs() > slack {
-                        rep.violation(
-                            &format!("fp.{BACKEND}.angle_wrap_differs_from_std"),
-                            format!("[{BACKEND}] rads({x:?}).wrap({min:?}, {max:?}) = {w:?}; x is exactly a whole number of interval lengths from min, a std build gives {min:?}"),
-                            Json::obj().set("x", f32s(x)).set("min", f32s(min)).set("max", f32s(max)),
-                        );
-                        return;
-                    }
-                    rep.count("wrap_checks.seam_without_rounding(must equal min)");
-                }
-                if x == min || x == max || (x - min) % len32 == 0.0 {
-                    rep.count("wrap_checks.exact_multiple_or_end");
-                }
-                rep.count("wrap_checks");
-            }
-        }
-    });
+    rep.run_stream(cfg, 6, "angle_wrap", cfg.n(400_000, 20_000_000), |rng, _, rep| wrap_case(rng, rep));
 
     rep.floor("exact_patterns", 1 << 27);
     rep.floor("integer_neighbourhood_checks", 20_000);
@@ -926,8 +948,97 @@ fn run(cfg: &Cfg, rep: &mut Report) {
     }
 }
 
+/// C18 on this backend: the angle clauses that go through the float helpers
+/// (wrap through rem_euclid; sin_cos; polar and spherical conversions through
+/// atan2/sqrt), with the backend's own error class as tolerance. The main C18
+/// monitor (rfmon) runs on the std build only; a defect confined to one
+/// no_std backend's helper would not show there.
+#[cfg(any(feature = "std", feature = "libm", feature = "mm"))]
+fn run_c18(cfg: &Cfg, rep: &mut Report) {
+    use re::math::angle::{rads, PolarVec, SphericalVec};
+    use re::math::vec::{vec2, vec3, Vec2, Vec3};
+    rep.rule = format!("backend '{BACKEND}': Angle::wrap on intervals people write and random ones, inputs at the ends, whole interval lengths away, within 1e3 rad, 1e3..1e7 rad and beyond (range only); sin_cos against sin and cos and sin²+cos² = 1; polar and spherical round trips of vectors over six decades; tolerances = the backend's error class; non-trivial = all; distinct by hash of the input bits");
+    rep.info("backend", BACKEND);
+    rep.assumptions.push("tolerances per backend: std/libm 2e-6 (sin/cos), 1e-5·r (round trips); mm 3e-3 (sin/cos), 5e-2·r (round trips: atan2 of the fast backend is good to a few 1e-2 rad)".into());
+    rep.run_stream(cfg, 0, "wrap", cfg.n(400_000, 20_000_000), |rng, _, rep| wrap_case(rng, rep));
+    let (trig_tol, rt_tol) = if BACKEND == "mm" { (3e-3f64, 5e-2f64) } else { (2e-6, 1e-5) };
+    rep.run_stream(cfg, 1, "sin_cos", cfg.n(200_000, 10_000_000), move |rng, i, rep| {
+        let x = match i % 4 {
+            0 => rng.f32_in(-7.0, 7.0),
+            1 => (rng.int(-40, 40) as f32) * std::f32::consts::FRAC_PI_2 + rng.f32_in(-1e-3, 1e-3),
+            _ => rng.f32_in(-100.0, 100.0),
+        };
+        let mut hs = Hasher::new();
+        hs.f32(x);
+        rep.case(hs.get(), true);
+        let a = rads(x);
+        match catch(|| (a.sin(), a.cos(), a.sin_cos())) {
+            Err(m) => rep.violation(&format!("fp.{BACKEND}.sin_panicked"), format!("[{BACKEND}] rads({x:?}).sin()/cos()/sin_cos() panicked: {m}"), Json::obj().set("x", f32s(x))),
+            Ok((s, c, (s2, c2))) => {
+                let pyth = ((s2 as f64).powi(2) + (c2 as f64).powi(2) - 1.0).abs();
+                let agree = (s as f64 - s2 as f64).abs().max((c as f64 - c2 as f64).abs());
+                let err = (s2 as f64 - (x as f64).sin()).abs().max((c2 as f64 - (x as f64).cos()).abs());
+                rep.worst("sin_cos.err", err, trig_tol, String::new);
+                if !(pyth <= 2.0 * trig_tol && agree <= trig_tol && err <= trig_tol) {
+                    rep.violation(&format!("fp.{BACKEND}.sin_cos_inconsistent"), format!("[{BACKEND}] rads({x:?}): sin_cos = ({s2},{c2}), sin = {s}, cos = {c}; sin²+cos²−1 = {pyth:.2e}, error {err:.2e} (tolerance {trig_tol:.0e})"), Json::obj().set("x", f32s(x)));
+                    return;
+                }
+                rep.count("sin_cos_checks");
+            }
+        }
+    });
+    rep.run_stream(cfg, 2, "polar_spherical_round_trips", cfg.n(200_000, 10_000_000), move |rng, _, rep| {
+        let mag = rng.log_f32(1e-3, 1e3);
+        let v = [rng.f32_in(-1.0, 1.0) * mag, rng.f32_in(-1.0, 1.0) * mag, rng.f32_in(-1.0, 1.0) * mag];
+        let mut hs = Hasher::new();
+        hs.f32s(&v);
+        rep.case(hs.get(), true);
+        let r2 = ((v[0] as f64).powi(2) + (v[1] as f64).powi(2)).sqrt();
+        let r3 = (r2 * r2 + (v[2] as f64).powi(2)).sqrt();
+        if r2 < 1e-6 * mag as f64 {
+            return;
+        }
+        let res = catch(|| {
+            let p: PolarVec = vec2::<f32, ()>(v[0], v[1]).into();
+            let back: Vec2 = p.into();
+            let sp: SphericalVec = vec3::<f32, ()>(v[0], v[1], v[2]).into();
+            let back3: Vec3 = sp.into();
+            (p.r(), p.az().to_degs(), back.0, sp.r(), sp.az().to_degs(), sp.alt().to_degs(), back3.0)
+        });
+        match res {
+            Err(m) => rep.violation(&format!("fp.{BACKEND}.polar_panicked"), format!("[{BACKEND}] polar/spherical conversion of {v:?} panicked: {m}"), Json::obj().set("v", format!("{v:?}"))),
+            Ok((pr, paz, b2, sr, saz, salt, b3)) => {
+                let e2 = (0..2).map(|k| (b2[k] as f64 - v[k] as f64).abs()).fold(0.0, f64::max);
+                let e3 = (0..3).map(|k| (b3[k] as f64 - v[k] as f64).abs()).fold(0.0, f64::max);
+                let (sq, _) = bound("sqrt");
+                let rtol = sq.max(4e-7);
+                let in_range = (-180.0001..=180.0001).contains(&paz) && (-180.0001..=180.0001).contains(&saz) && (-90.0001..=90.0001).contains(&salt);
+                rep.worst("round_trip_err/r", (e2 / r2).max(e3 / r3), rt_tol, String::new);
+                if !(e2 <= rt_tol * r2 && e3 <= rt_tol * r3 && (pr as f64 - r2).abs() <= rtol * r2 && (sr as f64 - r3).abs() <= rtol * r3 && in_range) {
+                    rep.violation(
+                        &format!("fp.{BACKEND}.polar_not_inverse"),
+                        format!("[{BACKEND}] {v:?}: polar (r {pr}, az {paz}°) → {b2:?}; spherical (r {sr}, az {saz}°, alt {salt}°) → {b3:?}; errors {e2:.2e}, {e3:.2e} (tolerance {rt_tol:.0e}·r)"),
+                        Json::obj().set("v", format!("{v:?}")),
+                    );
+                    return;
+                }
+                rep.count("round_trip_checks");
+            }
+        }
+    });
+    rep.floor("wrap_checks", 200_000);
+    rep.floor("wrap_inputs.1e3_to_1e7_rad", 30_000);
+    rep.floor("sin_cos_checks", 100_000);
+    rep.floor("round_trip_checks", 100_000);
+}
+
 fn lookup(p: &str) -> Option<rftk::cli::MonFn> {
-    (p == "C20").then_some(run as rftk::cli::MonFn)
+    match p {
+        "C20" => Some(run as rftk::cli::MonFn),
+        #[cfg(any(feature = "std", feature = "libm", feature = "mm"))]
+        "C18" => Some(run_c18 as rftk::cli::MonFn),
+        _ => None,
+    }
 }
 
 fn main() {
